@@ -102,11 +102,11 @@ def raw_snapshot(o):
     from quara.objects.gate import Gate
     from quara.objects.mprocess import MProcess
     if isinstance(o, State):
-        return raw(o.vec)
+        return (raw(o.vec), o.on_para_eq_constraint, o.is_physicality_required, o.mode_proj_order)
     if isinstance(o, Povm):
-        return tuple(raw(v) for v in o.vecs)
+        return tuple(raw(v) for v in o.vecs) + (tuple(o.nums_local_outcomes), o.on_para_eq_constraint, o.is_physicality_required)
     if isinstance(o, MProcess):
-        return tuple(raw(v) for v in o.hss) + (tuple(o.shape),)
+        return tuple(raw(v) for v in o.hss) + (tuple(o.shape), o.on_para_eq_constraint, o.is_physicality_required, o.mode_sampling)
     if isinstance(o, Gate) or hasattr(o, "hs"):
         return raw(o.hs)
     if isinstance(o, np.ndarray):
